@@ -48,7 +48,7 @@ CHECKS = {
  "C16": ("exploration", "gridx", "exhaustive enumeration of starting count x clone entry point x {std, no_std}, one child process per cell",
          "Every cell of (10 starting counts around isize::MAX and usize::MAX) x (16 clone entry points over all handle kinds and borrow callbacks) x (std, no_std builds) runs in its own child process: the count word is located through the hook log and pre-set, the clone is wrapped in catch_unwind; above the limit the child must die by SIGABRT with no handle produced and nothing caught, at or below it the clone returns and adds exactly one. An interference grid interleaves a second clone of the same allocation before each atomic step of the clone under test (through the hook table, deterministically): whenever any increment finds the count already past isize::MAX the process must abort.",
          "the count word is written through the address revealed by the cfg(triomphe_verif) shim; SIGABRT/SIGILL/SIGTRAP count as abort"),
- "C17": ("fault_enumeration", "gridx", "exhaustive fault injection into a recording serializer and a value-tree deserializer (failure at each k-th callback)",
+ "C17": ("fault_enumeration", "gridx+loomx", "exhaustive fault injection into a recording serializer and a value-tree deserializer (failure at each k-th callback); loom exploration of every interleaving of deserialize_in_place against readers and releasers of the replaced value",
          "For every value of the payload family (integers, strings, tuples, sequences, options, hand-written struct/enum/newtype+map) and every k the sequence of Serializer calls and the result through Arc<T>/UniqueArc<T> must be identical to those of serialising the value; for every input tree (well-formed and ill-typed) and every k deserialising the handle is Ok iff the value's deserializer is Ok, with an equal value, count 1 and exactly one extra allocation, and on Err the same error and nothing left allocated; deserialize_in_place on a sole or shared place must leave a fresh sole owner (sibling untouched) or, on failure, the place exactly as it was.",
          "two hand-written serde back ends stand for 'every serializer'; serde feature on"),
  "C10": ("model_checking", "seqx+gridx", "explicit-state BFS over thin/fat handle histories incl. every with_arc_mut callback behaviour x {return, panic}; exhaustive recorded-length grid for into_thin",
@@ -70,7 +70,7 @@ m = {
   {"name": "seqx", "path": "harness/seqx", "serves_properties": ["C01", "C03", "C04", "C08", "C09", "C10", "C11"], "kind_free_text": "explicit-state BFS over handle histories; each transition re-executes the history on the real crate under the arena allocator and compares with a reference model"},
   {"name": "gridx", "path": "harness/gridx", "serves_properties": ["C03", "C08", "C05", "C06", "C07", "C10", "C11", "C12", "C14", "C15", "C16", "C17"], "kind_free_text": "exhaustive enumeration of finite shape / input / fault grids, each cell executed on the real crate under the arena allocator"},
   {"name": "typex", "path": "lib/typex.py", "serves_properties": ["C13"], "kind_free_text": "generator of client probe crates + cargo check driver; rustc decides each cell"},
-  {"name": "loomx", "path": "harness/loomx", "serves_properties": ["C02", "C03", "C08", "C09"], "kind_free_text": "loom 0.7.2 stateless exploration of thread programs on the real crate through the cfg(triomphe_verif) atomic shim"},
+  {"name": "loomx", "path": "harness/loomx", "serves_properties": ["C02", "C03", "C08", "C09", "C17"], "kind_free_text": "loom 0.7.2 stateless exploration of thread programs on the real crate through the cfg(triomphe_verif) atomic shim"},
  ],
  "checks": [],
  "notes": "see DESIGN.md; known findings in known_findings.json",
